@@ -632,6 +632,10 @@ void bloom_filter_alloc<A>::internal_update(uint64_t h0, uint64_t h1) {
     bit_array_ops::set_bit(bit_array_, hash_index);
   }
   is_dirty_ = true;
+  if (memory_ != nullptr) {
+    // the count stored in the wrapped memory is stale now: mark it dirty for every other view of that memory
+    copy_to_mem(DIRTY_BITS_VALUE, memory_ + NUM_BITS_SET_OFFSET_BYTES);
+  }
 }
 
 // QUERY-AND-UPDATE METHODS
